@@ -10,6 +10,7 @@ pub mod join;
 pub mod kinds;
 pub mod store;
 pub mod report;
+pub mod sl;
 pub mod util;
 
 pub use bfs::{explore, Explored, Outcome, System, Violation};
